@@ -115,23 +115,35 @@ def path_weight(P, R, f, out, posv):
     return head, lv, N, body
 
 
+def final(e):
+    while isinstance(e, dict) and e.get('k') == 'bin' and e['op'] == '=':
+        e = e['r']
+    return e
+
+
 def first_char(P, R, f, out, posv, lv):
     def on_event(st, s):
+        if st[0] == 'VIOLATION':
+            return st
         empty, first = st
         ev = s.ev
         if ev['k'] == 'store':
             lhs = ev['lhs']
-            if is_var(lhs, posv) and ev.get('op') == '=' and const_of(ev.get('rhs')) == 0:
-                empty = True
-            if is_var(lhs, lv):
+            if is_var(lhs, posv):
+                # the text is empty exactly while the position is 0 (a character counts even when the
+                # buffer is too short to hold it)
                 if ev.get('op') == '=' and const_of(ev.get('rhs')) == 0:
+                    empty = True
+                else:
+                    empty = False
+            if is_var(lhs, lv):
+                if ev.get('op') == '=' and const_of(final(ev.get('rhs'))) == 0:
                     first = True
                 else:
                     first = False
             if lhs.get('k') == 'idx' and is_var(lhs['base'], out) and is_var(lhs['index'], posv):
                 if empty and const_of(ev.get('rhs')) == ord(':'):
                     return ('VIOLATION', s.loc)
-                empty = False
         return (empty, first)
 
     def on_edge(st, e):
@@ -161,7 +173,7 @@ def run_counter(P, R, f):
     for s in f.stores():
         if s.ev['k'] == 'store' and s.ev.get('op') == '++' and is_var(s.ev.get('lhs')):
             gs = f.guards(s.bid)
-            if any(isinstance(g[0], dict) and g[0].get('k') == 'idx' and on_path(g[0], 'in6') and g[1] == '==' and const_of(g[2]) == 0 for g in gs):
+            if any(isinstance(g[0], dict) and g[0].get('k') == 'idx' and on_path(g[0], 'in6') and not const_of(g[0]['index']) is not None and g[1] == '==' and const_of(g[2]) == 0 for g in gs):
                 incs.append(s)
     R.ob('C12.MPT.1', len(incs) == 1, incs[0] if incs else f, 'the scan counts consecutive zero groups in one counter', key='counter')
     for s in incs:
@@ -170,16 +182,14 @@ def run_counter(P, R, f):
         for bid in f.reachable_blocks():
             for e in f.out[bid]:
                 r = rules.edge_rel(e)
-                if r and isinstance(r[0], dict) and r[0].get('k') == 'idx' and on_path(r[0], 'in6') and r[1] == '!=' and const_of(r[2]) == 0 and s.bid in f.reach([bid]):
+                if r and isinstance(r[0], dict) and r[0].get('k') == 'idx' and on_path(r[0], 'in6') and const_of(r[0]['index']) is None and r[1] == '!=' and const_of(r[2]) == 0 \
+                        and any(x.dst == s.bid or f.dominates(x.dst, s.bid) for x in f.out[bid] if x is not e):
                     # every path from here to the loop's next iteration resets the counter
                     def resets(t, cv=cv):
                         return t.ev['k'] == 'store' and is_var(t.ev.get('lhs'), cv) and t.ev.get('op') == '=' and const_of(t.ev.get('rhs')) == 0
                     first = f.block_sites(e.dst)
-                    ok = any(resets(t) for t in first)
-                    if not ok:
-                        start = first[-1] if first else None
-                        p = f.path_avoiding(start, resets, target=bid) if start is not None else [e.dst]
-                        ok = p is None
+                    p = f.path_from_block(e.dst, resets, target=bid)
+                    ok = p is None
                     R.ob('C12.MPT.1', ok, first[0] if first else f, 'the zero-run counter is reset on every path that sees a non-zero group', key='reset')
     R.floor('C12.MPT.1', 2)
 
